@@ -287,15 +287,37 @@ pub fn scenario_open_directed(report: &mut Report, sig: &'static str) -> (Scenar
     (sc, case_id)
 }
 
+/// Directed: the newest version's TAIL write had begun when the backup was killed (the tail file exists, zero
+/// length): every entry is recorded, the version counts as complete, but it carries no hunk count.
+pub fn scenario_tail_started(report: &mut Report, sig: &'static str) -> (Scenario, Value) {
+    let mk = |name: &str, kind: NodeKind, m: i64| Node { comps: if name.is_empty() { vec![] } else { vec![name.to_string()] }, kind: kind.clone(), mode: if matches!(kind, NodeKind::Dir) { 0o755 } else { 0o644 }, mtime_ns: 1_655_000_000_000_000_000 + m, uid: 0, gid: 0 };
+    let mut t = Tree::default();
+    t.nodes.insert("/".into(), mk("", NodeKind::Dir, 0));
+    for (i, name) in ["a", "b", "c", "d", "e", "f", "g"].iter().enumerate() {
+        t.nodes.insert(format!("/{name}"), mk(name, NodeKind::File(format!("{name}: content number {i}").into_bytes()), i as i64));
+    }
+    let mut t2 = t.clone();
+    t2.nodes.insert("/d".into(), mk("d", NodeKind::File(b"d: changed for the second version".to_vec()), 1_000_000_000));
+    let p = BackupParamsLite { hunk: 3, block: 16, cap: 8 };
+    let steps = vec![Step::SetTree(t), Step::Backup(p.clone()), Step::SetTree(t2), Step::BackupCrash(p, 999, 1000)];
+    let case_id = json!({"directed": "newest version killed during its tail write (zero-length tail)", "history": history_json(&steps)});
+    (build_scenario(&steps, report, &case_id, sig), case_id)
+}
+
 /// A version whose tail file exists but is zero-length (the backup was killed between the two micro-steps of
-/// its last write) carries no hunk count: like a version without tail, the loss of its LAST hunk cannot be told
+/// its last write) carries no hunk count: like a version without tail, the REMOVAL of its LAST hunk cannot be told
 /// from an earlier kill.  (Props/C09 `open_band_trailing_hunk_loss_undetectable`; validate must stay silent on
-/// the undamaged archive, which fault-free operations produce.)
+/// the undamaged archive, which fault-free operations produce.)  An EMPTIED last hunk is another matter when a tail
+/// file is there: a zero-length hunk is what a killed hunk write leaves, and no hunk write is in progress once the
+/// tail write has begun — `check_index_hunks` takes the band for closed and reports the empty hunk, so that damage
+/// is within the promise.  Without any tail file both are indistinguishable from an earlier kill.
 fn trailing_hunk_of_countless_version(pre: &BTreeMap<String, String>, b: u32, dc: &DamageCase) -> bool {
-    let tail_countless = pre.get(&format!("{}/BANDTAIL", band_name(b))).map(|v| !v.starts_with("tail:")).unwrap_or(true);
+    let tail = pre.get(&format!("{}/BANDTAIL", band_name(b)));
+    let tail_countless = tail.map(|v| !v.starts_with("tail:")).unwrap_or(true);
     let idx_prefix = format!("{}/i/", band_name(b));
     let last_hunk = pre.keys().filter(|k| k.starts_with(&idx_prefix) && file_class(k) == "hunk").max().cloned();
-    tail_countless && last_hunk.as_deref() == Some(dc.rel.as_str()) && matches!(dc.damage, Damage::Delete | Damage::Truncate0)
+    let undetectable_damage = if tail.is_some() { matches!(dc.damage, Damage::Delete) } else { matches!(dc.damage, Damage::Delete | Damage::Truncate0) };
+    tail_countless && last_hunk.as_deref() == Some(dc.rel.as_str()) && undetectable_damage
 }
 
 // ---------------------------------------------------------------- C09
@@ -367,10 +389,10 @@ pub fn run_c09(tier: &str, seed: u64, report: &mut Report) {
         }
     }
     // damage side
-    let n_scen = if thorough { 10 } else { 2 };
+    let n_scen = if thorough { 10 } else { 3 };
     for sidx in 0..n_scen {
         let case_seed = seed.wrapping_mul(479001599).wrapping_add(sidx as u64);
-        let (sc, case_id) = if sidx % 2 == 1 { scenario_open(case_seed, report, "dmg-prefix") } else { scenario(case_seed, report, "dmg-prefix") };
+        let (sc, case_id) = if sidx == 2 { report.hit("directed:tail-started-version"); scenario_tail_started(report, "dmg-prefix") } else if sidx % 2 == 1 { scenario_open(case_seed, report, "dmg-prefix") } else { scenario(case_seed, report, "dmg-prefix") };
         let mut rng = Rng::new(case_seed ^ 0xD);
         let cases = plan(&sc.run.arch, &mut rng, if thorough { 6 } else { 2 }, true);
         let mut session = Session::new();
